@@ -245,6 +245,7 @@ func (c *Ctx) ord2() {
 
 	// induction variable: a phi of (offset parameter, itself+1)
 	var ind *ssa.Phi
+	var offsetParam *ssa.Parameter
 	for _, b := range rs.Blocks {
 		for _, ins := range b.Instrs {
 			phi, ok := ins.(*ssa.Phi)
@@ -253,8 +254,9 @@ func (c *Ctx) ord2() {
 			}
 			hasParam, hasInc := false, false
 			for _, e := range phi.Edges {
-				if pr, ok := strip(e).(*ssa.Parameter); ok && pr.Name() == "seqNoOffset" {
+				if pr, ok := strip(e).(*ssa.Parameter); ok && pr.Type().String() == "uint" {
 					hasParam = true
+					offsetParam = pr
 				}
 				if bo, ok := strip(e).(*ssa.BinOp); ok && bo.Op == token.ADD && bo.X == phi {
 					if n, ok := intConst(bo.Y); ok && n == 1 {
@@ -277,7 +279,7 @@ func (c *Ctx) ord2() {
 		if v == ind && ind != nil {
 			return true
 		}
-		if pr, ok := v.(*ssa.Parameter); ok && pr.Name() == "seqNoOffset" {
+		if pr, ok := v.(*ssa.Parameter); ok && pr == offsetParam && offsetParam != nil {
 			return true // phi resolved on the entry edge
 		}
 		if bo, ok := v.(*ssa.BinOp); ok && bo.Op == token.ADD && ind != nil {
@@ -336,7 +338,7 @@ func (c *Ctx) ord2() {
 							if and != nil && and.Op == token.AND {
 								mask, mok = intConst(and.Y)
 							}
-							if and != nil && mok && mask == c.constInt("publishIDMask") && isInd(and.X) && sp != nil && sp.Name() == "space" {
+							if and != nil && mok && mask == c.constInt("publishIDMask") && isInd(and.X) && sp != nil && sp != offsetParam && sp.Type().String() == "uint" {
 								key.pass()
 							} else {
 								key.fail(p, i, "Load key is %s, want seqNo&publishIDMask|space", Expr(k))
